@@ -13,6 +13,10 @@ About `execute` (packaging/target.py) and every pipeline built from it:
 * `executePinned_nonzero_moves_cwd`,
   `executePinned_default_runs_elsewhere`       counterexamples for the function as it was in the pinned tree (no restore on the non-zero
                                              branch; default working directory bound at import time)
+* `session_restores_cwd`, `session_dirs`,
+  `session_fault_reported`                     several operations in ONE process with `os.chdir` between them (success in A then failure in B, failure then
+                                             failure, …): each restores the directory *it* was started in and reports its own failing tool;
+                                             `executeCached_stale_moves_cwd`: counterexample for a return directory remembered across calls
 * `run_fault_reported`, `run_ok_clean`         for every pipeline and every oracle: the outcome is the external-command error iff an invocation
                                              failed without being handled by its caller, and that invocation is the last one logged (the
                                              operation stops there)
@@ -387,6 +391,51 @@ theorem fault_at_any_point (steps : List Step) (k : Nat) (f : ToolResult) (hf : 
     rw [hunclean] at this; cases this
   · have : k < pre.length + 1 := by rw [hcalls] at hk; simpa using hk
     omega
+
+/-! ### several operations in one process -/
+
+/-- **Every operation of a session restores the working directory it was started in** — whatever ran before it in the same
+    process (in another directory, successfully or not, under any oracle), whatever it does itself. -/
+theorem session_restores_cwd (w : World) (ops : List SessOp) : ∀ o ∈ runSession w ops, o.cwdAfter = o.cwdBefore := by
+  induction ops generalizing w with
+  | nil => intro o ho; cases ho
+  | cons op rest ih =>
+    intro o ho
+    simp only [runSession, List.mem_cons] at ho
+    rcases ho with rfl | ho
+    · exact run_restores_cwd op.orc op.steps _
+    · exact ih _ o ho
+
+/-- … and that directory is the one the caller changed into: nothing of an earlier operation's directory survives. -/
+theorem session_dirs (w : World) (ops : List SessOp) : (runSession w ops).map (·.cwdBefore) = ops.map (·.dir) := by
+  induction ops generalizing w with
+  | nil => rfl
+  | cons op rest ih => simp [runSession, ih]
+
+/-- **A failing tool is reported by the operation it fails in** — in every position of a session. -/
+theorem session_fault_reported (w : World) (ops : List SessOp) :
+    ∀ o ∈ runSession w ops, clean o.calls = false → o.res = .err .external ∧ LastFailed o.calls := by
+  induction ops generalizing w with
+  | nil => intro o ho; cases ho
+  | cons op rest ih =>
+    intro o ho hf
+    simp only [runSession, List.mem_cons] at ho
+    rcases ho with rfl | ho
+    · exact run_fault_reported op.orc op.steps _ rfl hf
+    · exact ih _ o ho hf
+
+/-- Counterexample for a remembered return directory: once the process has moved on (`base ≠ w.cwd`), every call — failing or
+    not — leaves the process in the remembered directory instead of the caller's. -/
+theorem executeCached_stale_moves_cwd (base : Path) (orc : Oracle) (tool : String) (sig : List String) (wd : Option P) (eff : List Eff)
+    (handled : Bool) (w w1 : World) (hcd : chdirTo w wd = some w1) (hb : base ≠ w.cwd) :
+    (executeCached base orc tool sig wd eff handled w).2.cwd ≠ w.cwd := by
+  simp only [executeCached, hcd]
+  split <;> exact hb
+
+/-- success in project `A`, then a failing tool in project `B`: reported there, and the process is still in `B` -/
+example : (runSession { cwd := ["A"], files := [], dirs := [["A"], ["B"]], flags := [], calls := [] }
+    [⟨["A"], allOk, [always (.exec "conan" ["build"] none [] )]⟩, ⟨["B"], faultAt 0 .nonzero, [always (.exec "conan" ["build"] none [])]⟩]).map
+      (fun o => (o.res, o.cwdAfter)) = [(.ok, ["A"]), (.err .external, ["B"])] := by decide
 
 /-! ### the package output directory -/
 
